@@ -103,6 +103,23 @@ def holds_by_value(t, names):
     return False
 
 
+def mentions_ref_to_named(t, names):
+    """a reference (shared or exclusive) whose referent is one of the named types"""
+    if isinstance(t, dict):
+        br = t.get("borrowed_ref")
+        if isinstance(br, dict):
+            rp = br.get("type", {}).get("resolved_path") if isinstance(br.get("type"), dict) else None
+            if rp and rp["path"].split("::")[-1] in names:
+                return True
+        return any(mentions_ref_to_named(v, names) for v in t.values())
+    if isinstance(t, list):
+        return any(mentions_ref_to_named(v, names) for v in t)
+    return False
+
+
+LOCKS = ["Mutex", "RwLock", "BoxedLockCollection", "RefLockCollection", "OwnedLockCollection", "RetryingLockCollection", "Poisonable"]
+
+
 def by_value_named(t, name):
     """parameter type is exactly the named path (not behind a reference)"""
     return isinstance(t, dict) and "resolved_path" in t and t["resolved_path"]["path"].split("::")[-1] == name
@@ -368,6 +385,8 @@ def fn_row(owner, fitem, im, trait=None, trait_public=True):
                 shared_self_returns_data=shared_self and ((owner in ("Mutex", "RwLock") and mentions_ref_to_generic(out, "T")) or
                                                           any(mentions(out, g) for g in GUARDS + REFS) or
                                                           mentions_assoc(out, ("Guard", "DataMut", "ReadGuard", "DataRef"))),
+                # a reference to a lock / collection / wrapper itself (not to its payload)
+                returns_lock_ref=mentions_ref_to_named(out, LOCKS),
                 trait=trait or "")
 
 
@@ -394,7 +413,8 @@ def render(rules, timpls, fns, key_public_field, nonkey_public_fields, keyable_i
          "Record autorule := mkrule { r_ty : string; r_marker : marker; r_negative : bool; r_synthetic : bool; r_bounds : list bound }.",
          "Record fnrow := mkfn { fn_owner : string; fn_name : string; fn_trait : string; fn_public : bool; fn_unsafe : bool;",
          "  fn_key_val : bool; fn_keyable_val : bool; fn_guard_val : bool; fn_returns_key : bool; fn_returns_guard : bool;",
-         "  fn_closure_escapes : bool; fn_returns_shared_child : bool; fn_mut_self : bool; fn_shared_self_returns_data : bool }.", ""]
+         "  fn_closure_escapes : bool; fn_returns_shared_child : bool; fn_mut_self : bool; fn_shared_self_returns_data : bool;",
+         "  fn_returns_lock_ref : bool }.", ""]
     o.append("Definition auto_rules : list autorule := [")
     rl = []
     for name, tr, neg, syn, bs in sorted(rules):
@@ -422,7 +442,7 @@ def render(rules, timpls, fns, key_public_field, nonkey_public_fields, keyable_i
         seen.add(key)
         fl.append(f'  mkfn "{f["owner"]}" "{f["name"]}" "{f["trait"]}" {cb(f["public"])} {cb(f["unsafe"])} {cb(f["key_val"])} '
                   f'{cb(f["keyable_val"])} {cb(f["guard_val"])} {cb(f["returns_key"])} {cb(f["returns_guard"])} '
-                  f'{cb(f["closure_escapes"])} {cb(f["returns_shared_child"])} {cb(f["mut_self"])} {cb(f["shared_self_returns_data"])}')
+                  f'{cb(f["closure_escapes"])} {cb(f["returns_shared_child"])} {cb(f["mut_self"])} {cb(f["shared_self_returns_data"])} {cb(f["returns_lock_ref"])}')
     o.append(";\n".join(fl))
     o.append("].\n")
     o.append(f"Definition key_has_public_field : bool := {cb(key_public_field)}.")
